@@ -14,6 +14,7 @@ import numpy as np
 
 from mc import alphabets as A
 from mc.harness import Result, Sub, digest
+from mc.ref import c05x as X
 from mc.ref import neigh as NB
 from mc.ref.base import mk_snaps
 
@@ -636,6 +637,244 @@ def run_cursor(case):
     return R
 
 
+# ---------------------------------------------------------------------------------------------- scale slice
+# Sizes straddling 64 / 128 / 256 and ids with 3-4 digits.  This slice enumerates SIZES (and rotates the geometries over them); there
+# is one fixed, deterministic value pattern per size.  Margins are evaluated per particle (mc/ref/c05x.py).
+SCALE_NP = {"quick": [65, 130, 257, 1000], "thorough": [64, 65, 128, 130, 257, 1000]}
+SCALE_NN = [1, 12, 63, 64, 65, "all"]
+FW = "c05_weights.dat"
+MIN_CLEAN = 0.95
+
+
+def scale_geoms(d):
+    full = [1] * d
+    p1 = [1, 0] if d == 2 else [0, 1, 1]
+    p2 = [0, 1] if d == 2 else [1, 0, 1]
+    return [("orthp", full, 1), ("tri+", full, 3), ("tri-", p1, 1), ("orthp", p2, 3), ("tri-", full, 3), ("tri+", p2, 1)]
+
+
+def gen_scale(tier, seed):
+    for d in (2, 3):
+        G = scale_geoms(d)
+        for si, Np in enumerate(SCALE_NP[tier]):
+            nc = Np // 2 if Np < 1000 else 300
+            items = []
+            for ki, N in enumerate(SCALE_NN):
+                if N != "all" and N >= Np - 1:
+                    continue
+                items.append((ki, {"kind": "nn", "N": Np - 1 if N == "all" else N, "pattern": "gas", "nc": 0}))
+            items.append((0, {"kind": "cut", "rule": "isolated", "pattern": "cluster", "nc": nc}))
+            items.append((3, {"kind": "cut", "rule": "isolated", "pattern": "cluster", "nc": nc}))
+            items.append((1, {"kind": "cut", "rule": "q66", "pattern": "gas", "nc": 0}))
+            items.append((2, {"kind": "type", "tpat": "mix", "pattern": "cluster", "nc": nc}))
+            items.append((4, {"kind": "type", "tpat": "single3", "pattern": "cluster", "nc": nc}))
+            for k, it in items:
+                geoms = [G[(si + k) % len(G)]] if tier == "quick" else G
+                seen = set()
+                for cell, mask, F in geoms:
+                    if it["kind"] == "nn" and Np * it["N"] > 300000:
+                        F = 1   # a 5 MB frame: one is enough
+                    key = (cell, tuple(mask), F)
+                    if key in seen:
+                        continue
+                    seen.add(key)
+                    yield dict(it, scale=True, seed=seed, Np=Np, d=d, cell=cell, ppp=mask, F=F)
+
+
+def nmax_class(nm, m):
+    if nm is None:
+        return "default"
+    return "below" if nm < m else ("equal" if nm == m else "above")
+
+
+def compare_big(R, tab, exp, is_nl, sig, what):
+    """exact comparison of a returned table with the reference; reports the first differing entry only"""
+    if tab.shape != exp.shape:
+        R.fail(f"{what}: shape {tab.shape}, expected {exp.shape} (cn column + largest capped cn)", sig=dict(sig, clause="shape"), sub="C05.scale")
+        return
+    a = np.asarray(tab, float)
+    if not np.array_equal(a, exp):
+        bad = np.argwhere(a != exp)[0]
+        R.fail(f"{what}: entry {bad.tolist()} is {tab[tuple(bad)]!r}, expected {exp[tuple(bad)]!r}",
+               sig=dict(sig, clause="cn" if bad[1] == 0 else "values"), sub="C05.scale", exp=exp[bad[0]][:40], obs=a[bad[0]][:40])
+        return
+    if (tab.dtype.kind in "iu") != is_nl or (not is_nl and tab.dtype.kind != "f"):
+        R.fail(f"{what}: dtype {tab.dtype} ({'integer' if is_nl else 'float'} expected)", sig=dict(sig, clause="dtype"), sub="C05.scale")
+
+
+def run_scale(case):
+    from PyMatterSim.neighbors.read_neighbors import read_neighbors
+
+    R = Result()
+    d, kind, n, F, seed = case["d"], case["kind"], case["Np"], case["F"], case["seed"]
+    ppp = case["ppp"]
+    H0 = X.scale_cell(d, case["cell"])
+    Hf = [np.array(h) for h in varying_cells(H0, F)] if F > 1 else [H0]
+    frames = [X.scale_points(seed, n, d, f"C05S{d}_{n}_{case['pattern']}_{f}", case["nc"]) for f in range(F)]
+    sig = {"kind": kind, "d": d, "cell": case["cell"], "F": F, "masked": 0 in ppp, "scale": True}
+    where = f"Np={n} {kind} {case.get('N', case.get('rule', case.get('tpat')))}"
+    tabs = [X.dist_table(p, h, ppp) for p, h in zip(frames, Hf)]
+    use_tie = case["cell"] != "orthp"
+    # ---- parameters derived from the reference table of frame 0 (deterministic)
+    lib = {"kind": kind, "ppp": ppp}
+    types = [1] * n
+    thr = None
+    _, sd0 = X.ranks(tabs[0][0])
+    if kind == "nn":
+        lib["N"] = case["N"]
+    elif kind == "cut":
+        if case["rule"] == "isolated":      # the most isolated particle keeps no neighbour; the cluster members see each other
+            rc = 0.999 * float(sd0[:, 0].max())
+        else:                               # about 66 neighbours on average (coordination numbers on both sides of 64)
+            v = np.sort(sd0[:, min(66, n // 2) - 1])
+            rc = 0.5 * float(v[n // 2] + v[n // 2 + 1])
+        lib["rc"] = rc
+        thr = rc
+    else:
+        v = np.sort(sd0[:, min(40, n // 3) - 1])
+        rc = 0.5 * float(v[n // 2] + v[n // 2 + 1])
+        lib["R"] = X.type_matrix(rc)
+        types = X.species(n, case["tpat"], case["nc"])
+        thr = X.type_thresholds(types, lib["R"])
+        sig["K"] = 3
+    exps, cleans = [], []
+    for D, tie in tabs:
+        t_ = tie if use_tie else None
+        if kind == "nn":
+            e, c = X.nn_reference(D, case["N"], t_)
+            e = e.tolist()
+        else:
+            e, c = X.cut_reference(D, thr, t_)
+        if c.mean() < MIN_CLEAN:
+            return R.screen()
+        exps.append(e)
+        cleans.append(c)
+    snaps = mk_snaps([p.tolist() for p in frames], np.array(Hf) if F > 1 else H0, types)
+    before = [s.positions.copy() for s in snaps.snapshots]
+    call_library(lib, snaps, FN)
+    with open(FN) as f:
+        text = f.read()
+    parsed, problems = NB.parse_listfile(text)
+    for pr in problems[:3]:
+        R.fail(f"file grammar: {pr} ({where})", sig=dict(sig, clause="file"), sub="C05.file")
+    if len(parsed) != F:
+        R.fail(f"{len(parsed)} frame headers for {F} frames ({where})", sig=dict(sig, clause="file"), sub="C05.file")
+        os.remove(FN)
+        return R
+    all_lists1 = []
+    compared = 0
+    cn_seen = set()
+    for t, (fr, exp, clean) in enumerate(zip(parsed, exps, cleans)):
+        if "neighborlist" not in fr["header"]:
+            R.fail(f"frame {t}: header {fr['header']} lacks 'neighborlist'", sig=dict(sig, clause="file"), sub="C05.file")
+        lists1, pr = NB.frame_lists(fr, n)
+        for x in pr[:3]:
+            R.fail(f"frame {t}: {x} ({where})", sig=dict(sig, clause="file"), sub="C05.file")
+        all_lists1.append(lists1)
+        if pr:
+            continue
+        adj = np.zeros((n, n), bool) if kind == "cut" else None
+        for i in range(n):
+            got = [j - 1 for j in lists1[i]]
+            cn_seen.add(len(got))
+            if any(j < 0 or j >= n for j in got):
+                R.fail(f"frame {t}: particle {i + 1}: neighbour id outside 1..{n} ({where})", sig=dict(sig, clause="file"), sub="C05.file", obs=lists1[i][:40])
+                continue
+            if i in got:
+                R.fail(f"frame {t}: particle {i + 1} lists itself ({where})", sig=dict(sig, clause="noself"), sub="C05.noself")
+            if len(set(got)) != len(got):
+                R.fail(f"frame {t}: particle {i + 1} lists a neighbour twice ({where})", sig=dict(sig, clause="duplicate"), sub="C05.scale")
+            if kind == "nn" and len(got) != case["N"]:
+                R.fail(f"frame {t}: particle {i + 1}: {len(got)} neighbours listed, N = {case['N']}", sig=dict(sig, clause="members"), sub="C05.scale")
+            if adj is not None:
+                adj[i, got] = True
+            if not clean[i]:
+                continue
+            compared += 1
+            if got != exp[i]:
+                if set(got) != set(exp[i]):
+                    R.fail(f"frame {t}: particle {i + 1}: wrong members ({where})", sig=dict(sig, clause="members"), sub="C05.scale",
+                           exp=[j + 1 for j in exp[i]][:60], obs=[j + 1 for j in got][:60])
+                else:
+                    R.fail(f"frame {t}: particle {i + 1}: not ordered by increasing distance ({where})", sig=dict(sig, clause="order"),
+                           sub="C05.order", exp=[j + 1 for j in exp[i]][:60], obs=[j + 1 for j in got][:60])
+        if adj is not None and not np.array_equal(adj, adj.T):
+            i, j = np.argwhere(adj != adj.T)[0]
+            # a pair whose distance is within the margin of r_cut may legitimately be decided differently in the two rows
+            if clean[i] and clean[j]:
+                R.fail(f"frame {t}: relation not symmetric for the pair {i + 1}, {j + 1} ({where})", sig=dict(sig, clause="symmetric"), sub="C05.symmetric")
+    for s, b in zip(snaps.snapshots, before):
+        if not np.array_equal(s.positions, b):
+            R.fail("snapshot positions modified", sig=dict(sig, clause="input_modified"), sub="C05.scale")
+    # ---- reading the file back: every rotation of the Nmax alphabet over the frames of ONE open handle; results are kept and
+    #      compared again after all reads (a returned table must not alias a buffer that a later call overwrites)
+    nreads = 0
+    if not R.viol:
+        offsets = [fr["start"] for fr in parsed] + [len(text)]
+        pv = [X.padded(l, n) for l in all_lists1]
+        m_all = [int(cn.max()) for cn, _ in pv]
+        alph = NB.nmax_alphabet(all_lists1) + [None]
+
+        def read(f, nm):
+            return read_neighbors(f, n) if nm is None else read_neighbors(f, n, nm)
+
+        def expect(t, nm, pvx, is_nl):
+            return X.ref_read(pvx[t][0], pvx[t][1], 200 if nm is None else nm, is_nl)
+
+        kept = []
+        for s in range(len(alph)):
+            with open(FN) as f:
+                for t in range(F):
+                    nm = alph[(s + t) % len(alph)]
+                    tab = read(f, nm)
+                    nreads += 1
+                    s2 = dict(sig, file="neighborlist", Nmax=nmax_class(nm, m_all[t]), handles=1)
+                    e = expect(t, nm, pv, True)
+                    compare_big(R, tab, e, True, s2, f"{where}: frame {t} read with Nmax={nm}")
+                    if f.tell() != offsets[t + 1]:
+                        R.fail(f"{where}: cursor at {f.tell()} after frame {t}, next header at {offsets[t + 1]}", sig=dict(s2, clause="cursor"), sub="C05.cursor")
+                    if len(kept) < 12:
+                        kept.append((tab, e, True, s2, f"{where}: frame {t} (Nmax={nm}) looked at again after later reads"))
+                if f.readline() != "":
+                    R.fail(f"{where}: data left after the last frame", sig=dict(sig, clause="cursor"), sub="C05.cursor")
+        # ---- two handles open at once on two different files (the library's neighbour file and a weights file with the same topology)
+        if sum(int(cn.sum()) for cn, _ in pv) <= 200000:
+            wl = [[[float(D[i, j - 1]) for j in l] for i, l in enumerate(lists1)] for lists1, (D, _) in zip(all_lists1, tabs)]
+            with open(FW, "w") as f:
+                for fr_w in wl:
+                    f.write(W_HEADERS[0] + "\n")
+                    for i, w in enumerate(fr_w):
+                        f.write(f"{i + 1} {len(w)} " + " ".join(repr(x) for x in w) + "\n")
+            pw = [X.padded(l, n) for l in wl]
+            for first in ("nl", "w"):
+                with open(FN) as f1, open(FW) as f2:
+                    for t in range(F):
+                        na = alph[t % len(alph)]
+                        nb_ = na if first == "w" else alph[(t + 1) % len(alph)]
+                        for which in ((("nl", "w") if first == "nl" else ("w", "nl"))):
+                            is_nl = which == "nl"
+                            nm = na if is_nl else nb_
+                            tab = read(f1 if is_nl else f2, nm)
+                            nreads += 1
+                            s2 = dict(sig, file="neighborlist" if is_nl else "weights", Nmax=nmax_class(nm, m_all[t]), handles=2)
+                            e = expect(t, nm, pv if is_nl else pw, is_nl)
+                            compare_big(R, tab, e, is_nl, s2, f"{where}: frame {t} of the {'neighbour' if is_nl else 'weights'} file (two open handles, Nmax={nm})")
+                            kept.append((tab, e, is_nl, s2, f"{where}: frame {t} of the {'neighbour' if is_nl else 'weights'} file (Nmax={nm}) looked at again after later reads"))
+                    if f1.readline() != "" or f2.readline() != "":
+                        R.fail(f"{where}: data left after the last frame (two handles)", sig=dict(sig, clause="cursor"), sub="C05.cursor")
+            os.remove(FW)
+        if not R.viol:
+            for tab, e, is_nl, s2, what in kept:
+                compare_big(R, tab, e, is_nl, dict(s2, retained=True), what)
+    os.remove(FN)
+    import hashlib
+
+    R.outcome([hashlib.sha1(text.encode()).hexdigest(), nreads])
+    R.nontrivial = compared > 0 and (kind == "nn" or len(cn_seen) > 1)
+    R.elem = compared + nreads * n
+    return R
+
+
 # ---------------------------------------------------------------------------------------------- registry
 def subs(tier, seed):
     conf = ("all N-subsets (N=2..%d) of %d sites of a jittered 3^d lattice + cluster + gas, d in {2,3}, cells {orth, tri+, tri-}, "
@@ -668,5 +907,18 @@ def subs(tier, seed):
             "inner BFS over ALL |alphabet|^F sequences of read events, alphabet {1,m-1,m,m+1,200 for every frame's m}; "
             "non-trivial = F >= 2 and some cn > 0",
             bounds={"F": [1, 3], "events_per_file": "|alphabet|^1 + ... + |alphabet|^F"}),
+        Sub("C05.scale", gen_scale, run_scale,
+            rule="SCALE slice - enumerates SIZES with one fixed deterministic value pattern per size: N_p in %s particles (ids with 2-4 digits), "
+            "2D/3D; N-nearest with N in {1,12,63,64,65,N_p-1} on a generic gas; global cutoff on a clustered configuration (cluster of N_p/2 "
+            "(300 for N_p=1000) mutual neighbours straddling the box corner: coordination numbers > 127 / > 255 / > 200 next to particles with 0 "
+            "neighbours) and a gas with about 66 neighbours; K=3 asymmetric type-pair matrices (60/20/20 %% and a single-member species); "
+            "geometries {orthogonal with shortest edge y, tri+, tri-} x {periodic, partial masks} x F in {1,3} with the cell (edges and tilts) "
+            "changing per frame, %s; margins per particle (rows with a rank/cutoff/half-cell margin < 1e-9 are compared for grammar only, "
+            ">= 95 %% of the rows of every frame must be comparable); every written row compared with a vectorised full-sort reference; then "
+            "read_neighbors: every rotation of the Nmax alphabet {1,m-1,m,m+1,200,default} over the frames of one open handle, and two handles "
+            "open at once (neighbour file + weights file of the same topology) with interleaved reads; returned tables are compared again after "
+            "all later reads; non-trivial = some row compared and (cutoffs) unequal coordination numbers"
+            % (SCALE_NP[tier], "one geometry per item, rotating over the sizes" if tier == "quick" else "all six geometries per item"),
+            bounds={"Np": SCALE_NP[tier], "N": SCALE_NN, "F": [1, 3]}),
     ]
     return s
